@@ -624,6 +624,7 @@ impl State {
     ) {
         // NAT rewrite of the source
         let mut wire_src = src;
+        let mut hairpin = false;
         if let Some(h) = from_host {
             if let Some(n) = self.hosts[h].spec.nat {
                 let nat = &mut self.nats[n];
@@ -639,6 +640,10 @@ impl State {
                 };
                 nat.allowed.insert((ext, *dst.ip()));
                 wire_src = SocketAddrV4::new(nat.public_ip, ext);
+                if *dst.ip() == nat.public_ip {
+                    // no hairpinning: a datagram from the inside to the NAT's own public address is lost
+                    hairpin = true;
+                }
             }
         }
         let kref = self.pair_count.entry((wire_src, dst)).or_insert(0);
@@ -662,6 +667,10 @@ impl State {
         let span = self.net.latency_max_us.saturating_sub(self.net.latency_min_us) + 1;
         let mut latency = (self.net.latency_min_us + pk("lat") % span) * 1000 + extra_delay;
         let mut drop = (pk("drop") % 1_000_000) < self.net.drop_ppm as u64;
+        if hairpin {
+            self.stats.nat_drops += 1;
+            drop = true;
+        }
         let mut dup = (pk("dup") % 1_000_000) < self.net.dup_ppm as u64;
         let corrupt = (pk("corrupt") % 1_000_000) < self.net.corrupt_ppm as u64;
         let slow = (pk("slow") % 1_000_000) < self.net.slow_ppm as u64;
